@@ -17,11 +17,11 @@ CHECKS = {
          "Every decoded opcode of every safe output, including the collapse tail.", "3 C05"),
  "C06": ("generated-input search incl. unsafe rewrites; oracle: FRAME position/uniqueness/length re-derived from the final bytes",
          "Frame length is recomputed from the decoded final output for framed outputs of many shapes, including outputs rewritten by the type-confusion mutator.", "3 C06"),
- "C07": ("repeat-and-compare (metamorphic: same input => same bytes) across instances, 16 concurrent threads, fresh processes and CLI batch worker counts",
+ "C07": ("repeat-and-compare (metamorphic: same input => same bytes) across instances, 16 concurrent threads, fresh processes (different working directories and environments) and CLI batch worker counts",
          "Digest equality across execution contexts; interleavings are sampled by stress, not enumerated.", "3 C07"),
  "C08": ("model-based stateful testing: generated call sequences on one generator vs a fresh generator per call",
          "Sequences of generate / generate_from_arbitrary / reset of length 1..8; every call's result must equal a fresh generator's.", "3 C08"),
- "C09": ("generated-input search + exhaustive enumeration of all byte strings of length <= 2, in child processes with 2 MiB stacks",
+ "C09": ("generated-input search + exhaustive enumeration of all byte strings of length <= 2 + staged search over scripted repeated-word programs (towers) scaled to thousands of repetitions, in child processes with 2 MiB stacks, optimised and unoptimised builds",
          "Ok + non-empty, no panic/abort/stack overflow, emission fuel never exhausted; silent spins would only be reported as inconclusive.", "3 C09"),
  "C10": ("generated-input search over the four flag combinations incl. unsafe mode; oracle: decoded opcode histogram",
          "No EXT*/buffer opcode in any explored output unless its flag is set.", "3 C10"),
@@ -31,9 +31,9 @@ CHECKS = {
          "Every vocabulary opcode must be witnessed (witness seeds recorded); misses are violations because >= 25 witnesses are expected for the rarest opcode.", "3 C12"),
  "C13": ("differential testing of the built CLI binary, action wrapper and Python extension module against the library under an independently written option mapping",
          "Byte equality of files / returned bytes with the in-process library for generated option tuples and Python call sequences.", "3 C13"),
- "C14": ("generated-input search and generate/reset/drop sequences under a counting global allocator (exact live-bytes equality)",
-         "live(before Generator::new) == live(after drop) for every explored case after one warm-up generation.", "3 C14"),
- "C15": ("direct calls of every mutator on harness-built entropy sources (exhaustive for <=2 bytes, special f64 patterns) + spy mutators inside full generations",
+ "C14": ("generated-input search and generate/reset/drop sequences under a counting global allocator (exact live-bytes equality); peak resident set of small vs large CLI batch processes",
+         "live(before Generator::new) == live(after drop) for every explored case after one warm-up generation; a batch process's peak memory does not grow with the number of samples.", "3 C14"),
+ "C15": ("direct calls of every mutator on harness-built entropy sources (exhaustive for <=2 bytes, special f64 patterns) + spy mutators inside full generations, each re-run with the mutators unwrapped (byte equality)",
          "Rate 0 never fires / never rewrites; rate 1 fires whenever applicable, first applicable mutator wins.", "3 C15"),
  "C16": ("generated-input search over values x entropy states per mutator; oracle: independent restatement of each documented transformation",
          "Checked on every Some/true result, including boundary values, empty/non-ASCII inputs and exhausted entropy.", "3 C16"),
